@@ -423,12 +423,12 @@ pub fn main(ctx: &Ctx) {
     let thorough = ctx.tier == vcore::Tier::Thorough;
     let (total, rule, floor) = match prop {
         "C01" => (
-            ctx.pick(1_200, 40_000),
+            ctx.pick(800, 40_000),
             "generated scenario: 1 RELIABLE writer (KEEP_ALL or KEEP_LAST d), 1-2 RELIABLE KEEP_ALL readers, fragment size f, 1-40(120) writes with boundary sizes around k*f, fault tape (drop/delay/duplicate/coalesce) on user-traffic datagrams, then healed network for up to 30 s virtual; non-trivial = a DATA/DATA_FRAG datagram was dropped, delayed or duplicated AND a repair (ACKNACK with non-empty set, NACK_FRAG or GAP) was seen on the wire; distinct = hash of the case encoding",
             200,
         ),
         "C02" => (
-            ctx.pick(1_200, 40_000),
+            ctx.pick(800, 40_000),
             "as C01 with BEST_EFFORT readers (writer BEST_EFFORT or RELIABLE); non-trivial = a DATA/DATA_FRAG datagram was dropped, delayed or duplicated; distinct = hash of the case encoding",
             200,
         ),
